@@ -135,6 +135,7 @@ impl BufferParser for Parser {
                     // the two position bytes are 1-based (the writer's Home is `^V^H 1 1`)
                     caret.pos.x = max(0, self.avt_repeat_char as i32 - 1);
                     caret.pos.y = max(0, ch as i32 - 1);
+                    buf.terminal_state.limit_caret_pos(buf, caret);
 
                     self.avt_state = AvtReadState::Chars;
                     Ok(CallbackAction::NoUpdate)
